@@ -24,7 +24,12 @@ RULE = ("every string-literal position (29 base positions x 8 wrappers: plain, t
 ASSUMPTIONS = ["standard SQL lexing (no backslash escapes in string literals) as in SQL-99, SQLite and Trino/Athena",
                "a trailing  ESCAPE '\\'  directly after a LIKE pattern literal is treated as an attribute of that literal (fixed, payload-independent text)"]
 
-SIGMA = ["'", '"', "\\", "%", "_", "-", ";", "/", "*", "\x00", "\n", "\u2019", "\u02bc", " ", "a", "(", ")", "|"]
+SIGMA = ["'", '"', "\\", "%", "_", "-", ";", "/", "*", "\x00", "\n", "\u2019", "\u02bc", " ", "a", "(", ")", "|", ","]
+# payloads that LOOK like another literal kind (date, date-time, number, GUID, keyword, duration) followed by an attack suffix:
+# a translation that re-types "ISO-looking" strings must still keep them inside one string token
+LOOKALIKE = [pre + suf for pre in ("2020-01-01", "2020-01-01T10:00:00Z", "12", "1.5e3", "123e4567-e89b-12d3-a456-426614174000", "true", "null",
+                                   "P1D", "10:30:00")
+             for suf in ("", "' OR '1'='1", "'; --", "\\")]
 CLASSICS = ["' OR 1=1 --", "'; DROP TABLE canary; --", "\\'", "%' --", "' UNION SELECT 1 --", "x' AND 'y'='y", "*/ OR 1=1 /*",
             "\\' OR 1=1 --", "''", "' || (SELECT 1) || '", "%_\\%\\_", "\u2019 OR 1=1 --"]
 META = set("'\"\\%_-;/*\x00\n\u2019\u02bc()|")
@@ -69,6 +74,17 @@ WRAPPERS = [
     ("concat-r", lambda L: T.call("concat", T.Str("k"), L)),
 ]
 MARK = T.Str("\x01MARK\x01")
+MARK_K = T.Str("\x01MARK\x01K")     # replaced by 'k' + payload
+MARK_J = T.Str("\x01MARK\x01J")     # replaced by 'j' + payload
+
+
+def extra_positions():
+    """positions next to date/number-typed expressions and multi-element lists"""
+    d, n, s = T.I("d"), T.I("n"), T.I("s")
+    return [T.binop("Eq", T.call("date", d), MARK), T.binop("Gt", T.call("now"), MARK), T.binop("Eq", d, MARK), T.binop("Eq", MARK, T.call("year", d)),
+            T.binop("Eq", n, MARK), T.binop("In", T.call("date", d), T.lst(MARK, T.Str("2020-01-01"))),
+            T.binop("In", s, T.lst(T.Str("k"), MARK, T.Str("j"), MARK)), T.binop("In", s, T.lst(MARK, T.Str("q, b"), T.Str("a, b"))),
+            T.binop("In", s, T.lst(MARK_K, MARK_J)), T.binop("Or", T.binop("Eq", s, MARK_K), T.binop("Eq", T.I("u"), MARK_J))]
 
 
 def positions():
@@ -77,12 +93,14 @@ def positions():
     for bi, b in enumerate(base):
         for wname, w in WRAPPERS:
             out.append(("p%d:%s" % (bi, wname), b, w))
+    for bi, b in enumerate(extra_positions()):
+        out.append(("x%d:plain" % bi, b, WRAPPERS[0][1]))
     return out
 
 
 def instantiate(base, wrap, payload):
     lit = wrap(T.Str(payload))
-    return T.replace(base, lambda node: lit if node == MARK else node)
+    return T.replace(base, lambda node: lit if node == MARK else T.Str("k" + payload) if node == MARK_K else T.Str("j" + payload) if node == MARK_J else node)
 
 
 def translate(text, dialect, alias):
@@ -155,7 +173,7 @@ def _payload_unit(unit):
     acc = Acc()
     poss = positions()
     neutral = {}
-    occ = {pos: sum(1 for st in T.subterms(base) if st == MARK) for pos, base, wrap in poss}
+    occ = {pos: sum(1 for st in T.subterms(base) if st in (MARK, MARK_K, MARK_J)) for pos, base, wrap in poss}
     for pos, base, wrap in poss:
         tx = to_odata(instantiate(base, wrap, "x"))
         for d in DIALECTS:
@@ -237,7 +255,7 @@ def payloads(k):
         for tup in product(SIGMA, repeat=n):
             out.append("".join(tup))
     conf = confusables()
-    return out + CLASSICS + conf + ["zz" + c + " OR 1=1 --" for c in conf[::3]]
+    return out + CLASSICS + LOOKALIKE + conf + ["zz" + c + " OR 1=1 --" for c in conf[::3]]
 
 
 def run(ctx):
@@ -280,7 +298,7 @@ def replay(ctx, case):
         res_x = translate(tx, case["dialect"], case["alias"])
         res_p = translate(case["filter"], case["dialect"], case["alias"])
         judge_pair(acc, case["position"], case["payload"], case["dialect"], case["alias"], case["filter"], res_p, res_x,
-                   nocc=sum(1 for st in T.subterms(pos[1]) if st == MARK))
+                   nocc=sum(1 for st in T.subterms(pos[1]) if st in (MARK, MARK_K, MARK_J)))
         return {"filter": case["filter"], "sql": res_p, "neutral_sql": res_x, "violations": acc.violations, "ok": not acc.violations}
     if case.get("layer") == "field":
         _field_unit((case["codepoint"], case["codepoint"] + 1))
